@@ -1180,8 +1180,19 @@ def irrelevant_edit(r, e, tid, ic, ia):
     other_tracks = [k for p in e["event"]["parts"].values() for k in p["tracks"] if k != str(tid)]
     cids = [int(c) for c in e["courses"]]
     done = []
-    for _ in range(r.randint(1, 5)):
-        kind = r.choice(["reg_other_track", "reg_other_part", "seg_other_track", "persona", "lodgement", "course_id", "seg_flip", "course_other_field"])
+    nedits = r.randint(1, 5)
+    for ei in range(nedits + 1):
+        if ei == nedits:
+            # every fourth twin additionally gets new persona names
+            if r.random() < 0.25 and "persona_names" not in done:
+                kind = "persona_names"
+            else:
+                break
+        else:
+            kind = "__pick__"
+        if kind == "__pick__":
+            kind = r.choice(["reg_other_track", "reg_other_part", "seg_other_track", "persona", "lodgement", "course_id", "seg_flip", "course_other_field",
+                             "persona_names"])
         if kind == "reg_other_track" and other_tracks and e["registrations"]:
             reg = e["registrations"][r.choice(list(e["registrations"]))]
             t2 = r.choice(other_tracks)
@@ -1204,6 +1215,14 @@ def irrelevant_edit(r, e, tid, ic, ia):
             reg = e["registrations"][r.choice(list(e["registrations"]))]
             reg["persona"]["username"] = "x%d@example.org" % r.randint(0, 99)
             reg["persona"]["birthday"] = "2000-01-0%d" % r.randint(1, 9)
+        elif kind == "persona_names" and e["registrations"]:
+            # the names are permuted among the registrations and get new initials: their alphabetical order changes
+            regs = list(e["registrations"].values())
+            names = [(g["persona"].get("family_name"), g["persona"].get("given_names")) for g in regs]
+            r.shuffle(names)
+            for g, (fn, gn) in zip(regs, names):
+                g["persona"]["family_name"] = r.choice("AMZ\u00c4") + str(fn)
+                g["persona"]["given_names"] = r.choice("abz") + str(gn)
         elif kind == "lodgement":
             e["lodgements"][str(r.randint(1, 50))] = {"title": "Haus %d" % r.randint(1, 9), "regular_capacity": r.randint(1, 9)}
         elif kind == "course_id" and not ia and e["registrations"]:
@@ -1276,7 +1295,14 @@ def c13_extra(ctx, cases):
         results = list(exr.map(work, pairs))
     # the model must classify the edit as irrelevant too: read_full equal on both documents
     texts = ["(%s, %s, %s)" % (cde.coq(ex["export"]), cde.coq(e2), cde.g_opts(track, ic, ia)) for (ex, e2, p2, track, ic, ia, kinds) in pairs]
-    codes = cde.eval_cases(ctx, "twin", "twin_case", "check_twin", texts)
+    named = [i for i, pr in enumerate(pairs) if "persona_names" in pr[6]]
+    plain = [i for i, pr in enumerate(pairs) if "persona_names" not in pr[6]]
+    codes = [None] * len(pairs)
+    for i, c in zip(plain, cde.eval_cases(ctx, "twin", "twin_case", "check_twin", [texts[i] for i in plain])):
+        codes[i] = c
+    if named:
+        for i, c in zip(named, cde.eval_cases(ctx, "twinnn", "twin_case", "check_twin_nn", [texts[i] for i in named])):
+            codes[i] = c
     viol = []
     st = Counter()
     dis = []
